@@ -17,7 +17,7 @@ out = "/tmp/mutout/confirm.json"
 if os.path.exists(out):
     res = json.load(open(out))
 only = sys.argv[1:]
-for d in sorted(glob.glob("/tmp/mutout/C??/[AB]")):
+for d in sorted(glob.glob("/tmp/mutout/C??/[AB]") + glob.glob("/tmp/mutout/C??r2/[AB]")):
     name = d.split("/")[-2] + "-" + d.split("/")[-1]
     if only and name not in only: continue
     if name in res and not only: continue
@@ -33,11 +33,11 @@ for d in sorted(glob.glob("/tmp/mutout/C??/[AB]")):
     rc, o = sh("cargo test --offline -j 6 2>&1 | grep -E '^test result' | head -1")
     r["tests"] = o.strip()
     t0 = time.time()
-    rc, o = sh(f"sh {d}/demo/run.sh", timeout=900)
+    rc, o = sh(f"bash {d}/demo/run.sh", timeout=900)
     r["demo_with_patch_exit"] = rc
     r["demo_with_tail"] = o[-400:]
     sh("git checkout -q -- . && git clean -fdq -e target")
-    rc, o = sh(f"sh {d}/demo/run.sh", timeout=900)
+    rc, o = sh(f"bash {d}/demo/run.sh", timeout=900)
     r["demo_without_patch_exit"] = rc
     r["demo_s"] = round(time.time() - t0)
     sh("git checkout -q -- . && git clean -fdq -e target")
